@@ -80,11 +80,11 @@ class C08(Check):
             env.close_quietly(self._ws)
         return res
 
-    def reopen(self, path):
+    def reopen(self, path, mode="r"):
         from geoh5py.workspace import Workspace
 
         self._ws.close()
-        self._ws = Workspace(path, mode="r")
+        self._ws = Workspace(path, mode=mode)
         return self._ws
 
     def host(self, assoc, count):
@@ -293,8 +293,57 @@ class C08(Check):
                 return {k: conv(x) for k, x in v.items()}
             return v
 
+        odd_kinds = set()
+
+        def conv(v):  # noqa: F811 (extends the conversion above with the leaves JSON cannot hold)
+            if isinstance(v, str) and v.startswith("uuid:"):
+                return uuid.UUID(v[5:])
+            if isinstance(v, str) and v.startswith("np:"):
+                odd_kinds.add(v[3:])
+                return {"array": np.array([1.5, 2.5]), "int64": np.int64(7), "float32": np.float32(0.1),
+                        "bytes": b"\x00\xff", "set": {1, 2}, "complex": 1 + 2j, "tuple": (1, "a")}[v[3:]]
+            if isinstance(v, dict):
+                return {k: conv(x) for k, x in v.items()}
+            return v
+
         value = conv(p["value"])
         owner = self.owner(p["on"])
+        if odd_kinds:
+            # unsupported leaf: refused, or stored and given back unchanged - never silently turned into something else
+            res.label("metadata:unsupported-leaf")
+            uid = owner.uid
+            try:
+                owner.metadata = {k: (dict(v) if isinstance(v, dict) else v) for k, v in value.items()}
+            except Exception:
+                res.label("metadata:unsupported-refused")
+                res.nontrivial = True
+                return
+            del owner
+            try:
+                ws = self.reopen(path)
+                got = ws.get_entity(uid)[0].metadata
+            except Exception as exc:
+                res.fail(f"C08/unsupported-metadata-accepted-then-unreadable/{'+'.join(sorted(odd_kinds))}",
+                         f"{value!r:.200}: {type(exc).__name__}: {exc}"[:300])
+                return
+
+            def same(a, b):
+                if isinstance(a, dict) and isinstance(b, dict):
+                    return a.keys() == b.keys() and all(same(a[k], b[k]) for k in a)
+                if isinstance(a, np.ndarray) or isinstance(b, np.ndarray):
+                    return type(a) is type(b) and np.array_equal(a, b)
+                if isinstance(a, tuple) and isinstance(b, list):  # JSON has one sequence type
+                    return list(a) == b
+                return type(a) is type(b) and a == b or (
+                    isinstance(a, (int, float, np.number)) and isinstance(b, (int, float)) and not isinstance(a, bool)
+                    and float(a) == float(b))
+
+            if not same(value, got):
+                res.fail(f"C08/unrepresentable-accepted/metadata/{'+'.join(sorted(odd_kinds))}",
+                         f"written {value!r:.200} accepted, read back {got!r:.200}")
+                return
+            res.nontrivial = True
+            return
         try:
             owner.metadata = {k: (dict(v) if isinstance(v, dict) else v) for k, v in value.items()}
         except Exception as exc:
@@ -396,7 +445,42 @@ class C08(Check):
 
         if not check("live", dict(data.value_map.map)):
             return
-        del data, host
+        edit = p.get("edit")
+        if edit:
+            # the stored map is edited: one declared label replaced, one key added
+            if p.get("session") == "new":
+                del data, host
+                data = self.reopen(path, mode="r+").get_entity(uid)[0]
+            key = sorted(k for k in declared if k != 0)[0] if any(k != 0 for k in declared) else None
+            res.label(f"valuemap-edit:{edit}:{p.get('session')}")
+            try:
+                if edit == "fresh":
+                    mapping = {k: v for k, v in declared.items() if k != 0}
+                    if key is not None:
+                        mapping[key] = p["relabel"]
+                    mapping[p["newkey"]] = "added"
+                    data.entity_type.value_map = mapping
+                elif edit == "inplace-map":
+                    live = data.value_map
+                    if key is not None:
+                        live[key] = p["relabel"]
+                    live[p["newkey"]] = "added"
+                    data.entity_type.value_map = live
+                else:
+                    mapping = data.value_map()
+                    if key is not None:
+                        mapping[key] = p["relabel"]
+                    mapping[p["newkey"]] = "added"
+                    data.entity_type.value_map = mapping
+            except Exception as exc:
+                res.fail(f"C08/valid-valuemap-rejected/edit/{edit}", f"{type(exc).__name__}: {exc}"[:300])
+                return
+            if key is not None:
+                declared[key] = p["relabel"]
+            declared[p["newkey"]] = "added"
+            if not check("live-after-edit", dict(data.value_map.map)):
+                return
+        data = host = None
         ws = self.reopen(path)
         fresh = ws.get_entity(uid)[0]
         if not check("reopen", {int(k): v for k, v in dict(fresh.value_map.map).items()}):
